@@ -209,8 +209,10 @@ func runC06(c *Ctx) {
 				})
 			}
 		}
-		if adv != 1 {
-			o.Fail(R.Pos(), "expected exactly one advance of head by the packet length in Read, found %d", adv)
+		if adv == 0 {
+			// the advance is not a plain "head += n" (a local copy of head stored back once, a wrapped sum):
+			// where the head ends up is decided path by path under R5h
+			o.Site(R.Pos(), "advance of head evaluated path by path (R5h)")
 		}
 		// the result, path by path (one loop iteration, helpers inlined): a path that takes a packet returns
 		// (length, nil) when it has established length <= len(buffer) and (len(buffer), ErrShortBuffer) when it has
@@ -345,6 +347,7 @@ func runC06(c *Ctx) {
 			reset := false
 			var stack []ssa.Value
 			var lastHeadStore ssa.Instruction
+			var wrapResults []linForm
 			for idx, in := range pt.Instrs {
 				w.cur = idx
 				if iff, ok := in.(*ssa.If); ok {
@@ -366,14 +369,52 @@ func runC06(c *Ctx) {
 								x := w.lin(cm.Y)
 								if d := x.add(cur, -1); d.OK && len(d.Coef) == 0 && d.K >= 0 && d.K <= 1 {
 									lastWrapOf, haveWrap = x, true
+								} else {
+									// the head kept in a local: the old head or an earlier wrap result, stepped by at most 2
+									for _, cnd := range append([]linForm{linSym(headKey)}, wrapResults...) {
+										if d := x.add(cnd, -1); d.OK && len(d.Coef) == 0 && d.K >= 0 && d.K <= 2 {
+											lastWrapOf, haveWrap = x, true
+										}
+									}
 								}
 							}
 						}
 						if emptyHeadTail(r, ft) {
 							reset = true // head == tail established: the buffer is empty, both indices may go to 0
+						} else if cm, ok := normCmp(ft.Cond, ft.Val); ok && cm.Op == token.EQL {
+							// the same test on a local holding the advanced head: a value congruent to head + 2 + length
+							for _, pr := range [][2]ssa.Value{{cm.X, cm.Y}, {cm.Y, cm.X}} {
+								if !r.isLoad(origin(pt.valueAt(pr[0], idx)), r.tail) {
+									continue
+								}
+								want := linSym(headKey).add(linConst(2), 1).add(w.lin(countVal), 1)
+								D := w.lin(pr[1]).add(want, -1)
+								okMod := D.OK && D.K == 0
+								for sym, cf := range D.Coef {
+									if sym != Lf.String() && !(len(Lf.Coef) == 1 && Lf.Coef[sym] == 1) {
+										okMod = false
+									}
+									if cf > 0 || cf < -3 {
+										okMod = false
+									}
+								}
+								if okMod {
+									reset = true
+								}
+							}
 						}
 					}
 					continue
+				}
+				if ph, isPhi := in.(*ssa.Phi); isPhi && haveWrap && isIntegerType(ph.Type()) {
+					// "if i >= len(data) { i = 0 }" on a local copy of the head: the wrapped value is i - len(data)
+					if e := pt.phiAt(ph, idx); e != nil {
+						if k, isC := constInt(e); isC && k == 0 {
+							wr := lastWrapOf.add(Lf, -1)
+							w.memo[ph] = wr
+							wrapResults = append(wrapResults, wr)
+						}
+					}
 				}
 				w.step(in)
 				if st, ok := in.(*ssa.Store); ok && r.isStoreTo(in, r.head) {
@@ -545,6 +586,7 @@ func runC06(c *Ctx) {
 				}
 			}
 		}
+		r.ringIndexRule(o, f)
 	}
 
 	// R7 pairing of count updates
@@ -647,6 +689,48 @@ func isLenOf(v ssa.Value, m func(ssa.Value) bool) bool {
 	return ok && b.Name() == "len" && m(c.Call.Args[0])
 }
 
+// stripByteMask removes what a conversion to a byte does anyway: v & 0xff (or a wider all-ones mask), v % 256.
+func stripByteMask(v ssa.Value) ssa.Value { return stripMask(v, 0xff) }
+
+// stripMask: masks of at least min (all ones) are dropped.
+func stripMask(v ssa.Value, min int64) ssa.Value {
+	for i := 0; i < 6; i++ {
+		b, ok := v.(*ssa.BinOp)
+		if !ok {
+			return v
+		}
+		switch b.Op {
+		case token.AND:
+			if k, isC := constInt(b.Y); isC && k >= min && (k+1)&k == 0 {
+				v = strip(b.X)
+				continue
+			}
+			if k, isC := constInt(b.X); isC && k >= min && (k+1)&k == 0 {
+				v = strip(b.Y)
+				continue
+			}
+		case token.REM:
+			if k, isC := constInt(b.Y); isC && k > min && (k-1)&k == 0 {
+				if isUnsignedType(b.X.Type()) || isLenCall(strip(b.X)) {
+					v = strip(b.X)
+					continue
+				}
+			}
+		}
+		return v
+	}
+	return v
+}
+
+func isLenCall(v ssa.Value) bool {
+	c, ok := v.(*ssa.Call)
+	if !ok {
+		return false
+	}
+	b, ok := c.Call.Value.(*ssa.Builtin)
+	return ok && b.Name() == "len"
+}
+
 // headerWriteShifts: the shift amounts of the bytes stored directly (not via copy) into the ring, in dominance order.
 func (r *bufRoles) headerWriteShifts(W *ssa.Function, packet *ssa.Parameter) ([]int64, token.Pos) {
 	// along every successful path of Write (helpers inlined, each call of a byte-storing helper with its own
@@ -689,7 +773,7 @@ func (r *bufRoles) headerWriteShifts(W *ssa.Function, packet *ssa.Parameter) ([]
 				continue
 			}
 			pos = st.Pos()
-			v := strip(pth.valueAt(st.Val, idx))
+			v := stripByteMask(strip(pth.valueAt(st.Val, idx)))
 			isPkt := func(x ssa.Value) bool { return sameOrigin(pth.valueAt(x, idx), ssa.Value(packet)) }
 			// byte k of an array encoded by encoding/binary (for _, v := range hdr)
 			{
@@ -715,8 +799,15 @@ func (r *bufRoles) headerWriteShifts(W *ssa.Function, packet *ssa.Parameter) ([]
 				}
 			}
 			if b, ok := v.(*ssa.BinOp); ok && b.Op == token.SHR {
-				if k, ok := constInt(b.Y); ok && isLenOf(b.X, isPkt) {
+				if k, ok := constInt(b.Y); ok && isLenOf(stripMask(strip(b.X), 0xffff), isPkt) {
 					out = append(out, k)
+					continue
+				}
+			}
+			if b, ok := v.(*ssa.BinOp); ok && b.Op == token.QUO {
+				// len / 256 is len >> 8 for the non-negative length
+				if k, ok := constInt(b.Y); ok && k == 256 && isLenOf(strip(b.X), isPkt) {
+					out = append(out, 8)
 					continue
 				}
 			}
@@ -923,6 +1014,242 @@ func (r *bufRoles) codecReadShifts(R *ssa.Function) (shifts []int64, count ssa.V
 	return shifts, cur, []ssa.Instruction{dec}
 }
 
+// ringIndexRule: along every complete path of f (one loop iteration, helpers inlined, stores forwarded to loads) each
+// index into the ring - data[i], data[i:...] - is in range: it is the head or tail as found under the lock, 0, or
+// a value the path has compared with len(data) and found smaller (the wrap test after an advance). Whether the
+// index lives in the field or in a local copy that is stored back later makes no difference.
+func (r *bufRoles) ringIndexRule(o *Obligation, f *ssa.Function) {
+	paths, ok := enumIterPathsU(f, 50000)
+	if !ok {
+		o.Undecide("the paths of %s could not be enumerated", fname(f))
+		return
+	}
+	recv := f.Params[0].Name()
+	headSym, tailSym := linSym(recv+"."+r.head), linSym(recv+"."+r.tail)
+	failed := map[ssa.Instruction]bool{}
+	sited := map[ssa.Instruction]bool{}
+	for pi := range paths {
+		pt := &paths[pi]
+		ret, isRet := pt.last().(*ssa.Return)
+		if !isRet || pt.Loop || ret.Parent() != f {
+			continue
+		}
+		w := newSymWalker(pt)
+		var est []linForm
+		ci := 0
+		var stack []*ssa.Call
+		isRing := func(v ssa.Value, idx int) bool {
+			v = pt.valueAt(v, idx)
+			return r.isLoad(v, r.data) || r.isLoad(origin(v), r.data)
+		}
+		check := func(in ssa.Instruction, iv ssa.Value, what string) {
+			I := w.lin(iv)
+			good := false
+			switch {
+			case !I.OK:
+			case I.eq(linConst(0)):
+				good = true
+			case I.eq(headSym) || I.eq(tailSym):
+				good = true
+			default:
+				for _, e := range est {
+					if e.eq(I) {
+						good = true
+					}
+				}
+			}
+			if !sited[in] {
+				sited[in] = true
+				o.Site(in.Pos(), "ring index of %s in %s", what, fname(f))
+			}
+			if !good && !failed[in] {
+				failed[in] = true
+				o.Fail(in.Pos(), "the ring is indexed at %s on a path that has not compared this value with len(data) since it was advanced: past the end of the ring the index must wrap to 0", I)
+			}
+		}
+		for idx, in := range pt.Instrs {
+			w.cur = idx
+			if iff, isIf := in.(*ssa.If); isIf {
+				var ft fact
+				if ci < len(pt.Conds) {
+					ft = pt.Conds[ci]
+				}
+				ci++
+				if ft.If != iff {
+					continue
+				}
+				if cm, ok := normCmp(ft.Cond, ft.Val); ok && cm.Op == token.LSS {
+					if isLenOf(pt.valueAt(cm.Y, idx), func(v ssa.Value) bool { return isRing(v, idx) }) {
+						if x := w.lin(cm.X); x.OK {
+							est = append(est, x)
+						}
+					}
+				}
+				continue
+			}
+			switch x := in.(type) {
+			case *ssa.IndexAddr:
+				if isRing(x.X, idx) {
+					check(in, x.Index, "a byte")
+				}
+			case *ssa.Slice:
+				if x.Low != nil && isRing(x.X, idx) {
+					check(in, x.Low, "a slice start")
+				}
+			}
+			w.step(in)
+			if h := helperCallee(in); h != nil && idx+1 < len(pt.Instrs) && pt.Instrs[idx+1].Parent() == h {
+				stack = append(stack, in.(*ssa.Call))
+			}
+			if _, isRetI := in.(*ssa.Return); isRetI && len(stack) > 0 && idx+1 < len(pt.Instrs) {
+				w.bindReturn(stack[len(stack)-1])
+				stack = stack[:len(stack)-1]
+			}
+		}
+	}
+}
+
+// combineReadShifts: the decoded length as the expression that combines two ring bytes (b<<k | b'), whichever way
+// the bytes are fetched (a byte-popping helper called twice, a local copy of head and data): the byte fetched at the
+// old head is the first, the one at head+1 the second, as evaluated along a path of Read that takes a packet without
+// wrapping inside the header.
+func (r *bufRoles) combineReadShifts(R *ssa.Function) (shifts []int64, count ssa.Value, loads []ssa.Instruction) {
+	ringByte := func(v ssa.Value) (*ssa.UnOp, bool) {
+		u, ok := v.(*ssa.UnOp)
+		if !ok || u.Op != token.MUL {
+			return nil, false
+		}
+		ia, ok := u.X.(*ssa.IndexAddr)
+		if !ok {
+			return nil, false
+		}
+		return u, r.isLoad(origin(ia.X), r.data)
+	}
+	side := func(v ssa.Value) (k int64, prod ssa.Instruction, ok bool) {
+		v = strip(v)
+		if b, isB := v.(*ssa.BinOp); isB && b.Op == token.SHL {
+			kk, isC := constInt(b.Y)
+			if !isC {
+				return 0, nil, false
+			}
+			k, v = kk, strip(b.X)
+		}
+		if u, isRB := ringByte(v); isRB {
+			return k, u, true
+		}
+		if call, isC := v.(*ssa.Call); isC && helperCallee(call) != nil {
+			if _, isRB := ringByte(strip(origin(v))); isRB {
+				return k, call, true
+			}
+		}
+		return 0, nil, false
+	}
+	var comb *ssa.BinOp
+	var kx, ky int64
+	var px, py ssa.Instruction
+	n := 0
+	instrsOfU(R, func(in ssa.Instruction) {
+		b, ok := in.(*ssa.BinOp)
+		if !ok || (b.Op != token.OR && b.Op != token.ADD) {
+			return
+		}
+		k1, p1, ok1 := side(b.X)
+		k2, p2, ok2 := side(b.Y)
+		if ok1 && ok2 && p1 != p2 {
+			comb, kx, ky, px, py = b, k1, k2, p1, p2
+			n++
+		}
+	})
+	if n != 1 {
+		return nil, nil, nil
+	}
+	paths, ok := enumIterPathsU(R, 50000)
+	if !ok {
+		return nil, nil, nil
+	}
+	headKey := R.Params[0].Name() + "." + r.head
+	decided := false
+	for pi := range paths {
+		pt := &paths[pi]
+		ret, isRet := pt.last().(*ssa.Return)
+		if !isRet || pt.Loop || ret.Parent() != R || pt.indexOf(comb) < 0 {
+			continue
+		}
+		w := newSymWalker(pt)
+		dOf := map[ssa.Instruction]int64{}
+		bad := false
+		var stack []*ssa.Call
+		for idx, in := range pt.Instrs {
+			w.cur = idx
+			if _, isIf := in.(*ssa.If); isIf {
+				continue
+			}
+			if u, isU := in.(*ssa.UnOp); isU {
+				if _, isRB := ringByte(u); isRB {
+					key := ssa.Instruction(u)
+					if u.Parent() != R && len(stack) > 0 {
+						key = stack[len(stack)-1]
+					}
+					d := w.lin(u.X.(*ssa.IndexAddr).Index).add(linSym(headKey), -1)
+					if d.OK && len(d.Coef) == 0 {
+						if _, dup := dOf[key]; !dup {
+							dOf[key] = d.K
+						}
+					} else if key == px || key == py {
+						bad = true
+					}
+				}
+			}
+			w.step(in)
+			if h := helperCallee(in); h != nil && idx+1 < len(pt.Instrs) && pt.Instrs[idx+1].Parent() == h {
+				stack = append(stack, in.(*ssa.Call))
+			}
+			if _, isRetI := in.(*ssa.Return); isRetI && len(stack) > 0 && idx+1 < len(pt.Instrs) {
+				w.bindReturn(stack[len(stack)-1])
+				stack = stack[:len(stack)-1]
+			}
+		}
+		dx, okx := dOf[px]
+		dy, oky := dOf[py]
+		if bad || !okx || !oky {
+			continue
+		}
+		if !((dx == 0 && dy == 1) || (dx == 1 && dy == 0)) {
+			return []int64{-1, -1}, nil, nil // the two bytes are not those at head and head+1
+		}
+		sh := make([]int64, 2)
+		sh[dx], sh[dy] = kx, ky
+		if decided && (sh[0] != shifts[0] || sh[1] != shifts[1]) {
+			return []int64{-1, -1}, nil, nil
+		}
+		shifts, decided = sh, true
+		if dx == 0 {
+			loads = []ssa.Instruction{px, py}
+		} else {
+			loads = []ssa.Instruction{py, px}
+		}
+	}
+	if !decided {
+		return nil, nil, nil
+	}
+	var cur ssa.Value = comb
+	for {
+		var nx ssa.Value
+		if refs := cur.Referrers(); refs != nil {
+			for _, r2 := range *refs {
+				if cv, ok := r2.(*ssa.Convert); ok {
+					nx = cv
+				}
+			}
+		}
+		if nx == nil {
+			break
+		}
+		cur = nx
+	}
+	return shifts, cur, loads
+}
+
 // headerReadShifts: loads of single ring bytes at head in Read (dominance order) and the shifts with which they enter the decoded length.
 func (r *bufRoles) headerReadShifts(R *ssa.Function) (shifts []int64, count ssa.Value, loads []ssa.Instruction) {
 	var lds []*ssa.UnOp
@@ -944,7 +1271,10 @@ func (r *bufRoles) headerReadShifts(R *ssa.Function) (shifts []int64, count ssa.
 		}
 	}
 	if len(lds) != 2 {
-		return r.codecReadShifts(R)
+		if sh, cnt, ls := r.codecReadShifts(R); cnt != nil || sh != nil {
+			return sh, cnt, ls
+		}
+		return r.combineReadShifts(R)
 	}
 	// find the OR/ADD combining both
 	shiftOf := func(ld *ssa.UnOp) (int64, ssa.Value) {
@@ -1361,6 +1691,23 @@ func runC07(c *Ctx) {
 			if call, ok := in.(*ssa.Call); ok {
 				if sc := call.Call.StaticCallee(); sc != nil && (sc == r.availFn || sc == r.growFn) {
 					return "store"
+				}
+				// a helper that makes room or stores (it calls the fit test / the growth, or writes the ring)
+				if h := helperCallee(call); h != nil {
+					stores := false
+					instrsOfU(h, func(x ssa.Instruction) {
+						if xc, ok := x.(*ssa.Call); ok {
+							if sc := xc.Call.StaticCallee(); sc != nil && (sc == r.availFn || sc == r.growFn) {
+								stores = true
+							}
+						}
+						if r.isRingWrite(x) || r.isStoreTo(x, r.tail) || r.isStoreTo(x, r.count) {
+							stores = true
+						}
+					})
+					if stores {
+						return "store"
+					}
 				}
 			}
 			if r.isRingWrite(in) || r.isStoreTo(in, r.tail) || r.isStoreTo(in, r.count) {
